@@ -747,16 +747,6 @@ fn gen_history(rng: &mut Rng, thorough: bool) -> Vec<Act> {
 fn put(kind: PayloadKind, len: usize, seed: u64, ts: i64) -> PutSpec { PutSpec::simple(PayloadSpec::new(kind, len, seed), ts) }
 fn put_emb(kind: PayloadKind, len: usize, seed: u64, ts: i64, dim: usize) -> PutSpec { let mut p = put(kind, len, seed, ts); p.emb = Some(EmbSpec { dim, seed: seed + 77 }); p }
 
-/// a seed for which the generated ASCII payload of `len` characters is exactly one whole word of the vocabulary
-fn seed_for_word(len: usize, from: u64) -> u64 {
-    let mut s = from;
-    loop {
-        let t = String::from_utf8(PayloadSpec::new(PayloadKind::Ascii, len, s).bytes()).unwrap_or_default();
-        if VOCAB.contains(&t.to_ascii_lowercase().as_str()) { return s; }
-        s += 1;
-    }
-}
-
 fn corpus() -> Vec<(String, Vec<Act>)> {
     let chk = |seed| Act::Check { rt: true, rl: true, rv: false, seed };
     vec![
@@ -764,11 +754,6 @@ fn corpus() -> Vec<(String, Vec<Act>)> {
             Act::Op(Op::Put(put_emb(PayloadKind::Ascii, 120, 1, 100, 3))), Act::Op(Op::Put(put_emb(PayloadKind::Ascii, 200, 2, 90, 3))),
             Act::Op(Op::Put(put_emb(PayloadKind::Utf8, 80, 3, 100, 3))), chk(11),
             Act::Op(Op::Delete { id: 1 }), Act::Op(Op::Put(put_emb(PayloadKind::Ascii, 60, 4, 95, 3))), chk(12)]),
-        // frame 0 has no text, hence no sketch: the track holds ids [1, 2]; written without ids and read back
-        // as [0, 1] (C39 sketch-track-frame-ids-not-stored) the pre-filter names other frames after reopen
-        ("binary-frame-leaves-sketch-gap".into(), { let a = seed_for_word(5, 1000); let b = seed_for_word(5, a + 1); vec![
-            Act::Op(Op::Put(put(PayloadKind::Bin, 20, 5, 100))), Act::Op(Op::Put(put(PayloadKind::Ascii, 5, a, 101))),
-            Act::Op(Op::Put(put(PayloadKind::Ascii, 5, b, 102))), chk(13)] }),
         // commit_skip_indexes applies frame 0 without the engine attached: no sketch for it; frame 1 is
         // sketched by the next commit: track ids [1], read back as [0]
         ("skip-indexes-commit-leaves-sketch-gap".into(), vec![
